@@ -5,7 +5,7 @@ NOTES = ("Contract-based deductive verification with CBMC on C text sliced from 
 
 CHECKS = {
  "C05": dict(
-   text="Proof for all inputs of the escape decoding leaves (hex_to_u32_nocheck over 2^32 inputs, codepoint_to_utf8 over 2^32 code points, handle_unicode_codepoint over every ordered pair of \\u escapes, kEscapedMap over 256 bytes) against an RFC 8259/3629 oracle; StringBlock::Find and its predicates are proved for all blocks of both vector widths. parseStringInplace is a bounded stand-in in the thorough tier only (raw length <= 8).",
+   text="Proof for all inputs of the escape decoding leaves (hex_to_u32_nocheck over 2^32 inputs, codepoint_to_utf8 over 2^32 code points, handle_unicode_codepoint over every ordered pair of \\u escapes, kEscapedMap over 256 bytes) against an RFC 8259/3629 oracle; StringBlock::Find and its predicates are proved for all blocks of both vector widths. The in-place loop parseStringInplace itself (find / cont / find_and_move phases) is NOT decided: its bounded jobs did not finish (DESIGN section 12).",
    design_ref="DESIGN.md section 5 (C05)",
    note="Trusted: CBMC, the textual lowering, the RFC oracle in specs/include/rfc8259.h. Undecided residue listed in evidence.",
    technique="CBMC contract/assertion proofs over the full input domain of mechanically sliced C (loop-free harnesses: complete)"),
@@ -34,9 +34,9 @@ CHECKS["C06"] = dict(
    note="Trusted: CBMC, lowering, CBMC's realloc model with allocation failure excluded (the code asserts non-null). Stated preconditions: Reserve(n>=1); Grow(0) only with capacity >= 1 (otherwise realloc(p,0)). Pointer checks are off inside Grow and Size only (capacity test past the end of the block; Size() right after realloc); emitter extents for strings/integers are C09/C08.",
    technique="CBMC function contracts enforced by DFCC on mechanically sliced member functions (loop-free: complete)")
 CHECKS["C09"] = dict(
-   text="Complete proofs for the escape tables (all 256 bytes: need-escape flag, escape length 0/2/6, escape text per RFC 8259) and for CopyAndGetEscapMask (all VEC_LEN-byte blocks, both vector widths: verbatim copy, mask bit i iff byte i needs an escape, lowest set bit marks a byte needing an escape); unbounded loop-contract proof for DoEscape (any run length: reads only [src,src+nb), writes only [dst,dst+6nb+2), consumes k>=1 bytes, emits 2k..6k bytes, stops at the first byte needing no escape); bounded byte-exactness of DoEscape for runs <= 4. Quote itself (extent 6n+2, page-end safety in the production path, byte-exact output) is only covered by bounded jobs in the thorough tier; an unbounded proof did not get through CBMC.",
+   text="Complete proofs for the escape tables (all 256 bytes: need-escape flag, escape length 0/2/6, escape text per RFC 8259) and for CopyAndGetEscapMask (all VEC_LEN-byte blocks, both vector widths: verbatim copy, mask bit i iff byte i needs an escape, lowest set bit marks a byte needing an escape); unbounded loop-contract proof for DoEscape (any run length: reads only [src,src+nb), writes only [dst,dst+6nb+2), consumes k>=1 bytes, emits 2k..6k bytes, stops at the first byte needing no escape); bounded byte-exactness of DoEscape for runs <= 4. The serializer call site (reservation 6n+32+3 before Quote) is checked in job C06.SerializeImpl.reservations. Quote's own loops (tail page guard, tail mask, extent 6n+2, byte-exact output) are NOT decided: three routes were built and none finished (DESIGN section 12).",
    design_ref="DESIGN.md section 5 (C09)",
-   note="Trusted: CBMC, lowering, intrinsic/SIMD-wrapper models. Undecided in the quick tier: Quote's loops (tail guard, tail mask, reservation 6n+32+3 at the serializer call site).",
+   note="Trusted: CBMC, lowering, intrinsic/SIMD-wrapper models (sample-validated each run). Undecided: Quote's loops.",
    technique="CBMC assertions over full finite domains (tables, one vector block) + DFCC function/loop contracts (DoEscape); bounded unwinding for exactness")
 
 CHECKS["C08"] = dict(
